@@ -11,9 +11,10 @@ import (
 func redundantSprint(m dsl.Matcher) {
 	// Unary and binary operators bind weaker than a selector or an index:
 	// such operands need parenthesis in the replacement.
+	// So does a composite literal when it ends up in the header of an if, for or switch statement.
 	m.Match(`fmt.Sprint($x)`, `fmt.Sprintf("%s", $x)`, `fmt.Sprintf("%v", $x)`).
 		Where(!m["x"].Type.Is(`reflect.Value`) && m["x"].Type.Implements(`fmt.Stringer`) &&
-			(m["x"].Node.Is(`BinaryExpr`) || m["x"].Node.Is(`UnaryExpr`) || m["x"].Node.Is(`StarExpr`))).
+			(m["x"].Node.Is(`BinaryExpr`) || m["x"].Node.Is(`UnaryExpr`) || m["x"].Node.Is(`StarExpr`) || m["x"].Node.Is(`CompositeLit`))).
 		Suggest(`($x).String()`).
 		Report(`use ($x).String() instead`)
 
